@@ -13,6 +13,14 @@ type TV struct {
 	Ty interface{}
 }
 
+// anchor: a quantified integer variable used as a slice index is re-indexed by
+// the absolute position in the backing array, so that the element access is a
+// usable E-matching pattern (arithmetic inside a pattern never matches).
+type anchor struct {
+	slice Term
+	abs   string
+}
+
 type setTy struct{ elem types.Type } // set of keys: (Array K Bool)
 type mapContentTy struct{ m types.Type }
 
@@ -35,6 +43,8 @@ type Env struct {
 	resolve  func(name string) (TV, bool)
 	seen     func(n int) (TV, bool)
 	loopSt   *State // state at loop entry (for loop frames)
+	phiVal   func(ph interface{}) (Term, bool)
+	anchors  map[string]*anchor // quantified int variables (by SMT name) -> slice they index
 	inOld    bool
 }
 
@@ -161,27 +171,50 @@ func (env *Env) eval(ex Expr) (TV, error) {
 		return env.evalBinary(n)
 	case *Quant:
 		inner := env
-		var binders []string
-		var guards []Term
+		anch := map[string]*anchor{}
+		for k, v := range env.anchors {
+			anch[k] = v
+		}
+		var names []string
+		var sortsL []string
 		for _, v := range n.Vars {
 			t, err := env.resolveType(v.Type)
 			if err != nil {
 				return TV{}, err
 			}
-			name := q("q:" + v.Name)
+			e.n++
+			name := q(fmt.Sprintf("q:%s!%d", v.Name, e.n))
 			inner = inner.with(v.Name, TV{name, t})
-			binders = append(binders, fmt.Sprintf("(%s %s)", name, e.S.sortOf(t)))
-			_ = guards
+			names = append(names, name)
+			sortsL = append(sortsL, e.S.sortOf(t))
+			if isInteger(t) {
+				anch[name] = &anchor{abs: q(fmt.Sprintf("a:%s!%d", v.Name, e.n))}
+			}
 		}
+		inner.anchors = anch
 		b, err := inner.eval(n.Body)
 		if err != nil {
 			return TV{}, err
+		}
+		var binders []string
+		var lets []string
+		for i, name := range names {
+			if a := anch[name]; a != nil && a.slice != "" {
+				binders = append(binders, fmt.Sprintf("(%s Int)", a.abs))
+				lets = append(lets, fmt.Sprintf("(%s (- %s (soff %s)))", name, a.abs, a.slice))
+			} else {
+				binders = append(binders, fmt.Sprintf("(%s %s)", name, sortsL[i]))
+			}
+		}
+		body := b.T
+		if len(lets) > 0 {
+			body = fmt.Sprintf("(let (%s) %s)", strings.Join(lets, " "), body)
 		}
 		qn := "forall"
 		if !n.Forall {
 			qn = "exists"
 		}
-		return TV{fmt.Sprintf("(%s (%s) %s)", qn, strings.Join(binders, " "), b.T), tyBool}, nil
+		return TV{fmt.Sprintf("(%s (%s) %s)", qn, strings.Join(binders, " "), body), tyBool}, nil
 	case *Sel:
 		return env.evalSel(n)
 	case *Index:
@@ -516,6 +549,14 @@ func (env *Env) evalIndex(n *Index) (TV, error) {
 		return TV{fmt.Sprintf("(select (select %s %s) %s)", e.get(env.st, vl), xv.T, key.T), u.Elem()}, nil
 	case *types.Slice:
 		f := e.elemFam(u.Elem())
+		if a := env.anchors[iv.T]; a != nil && !strings.Contains(xv.T, iv.T) {
+			if a.slice == "" {
+				a.slice = xv.T
+			}
+			if a.slice == xv.T {
+				return TV{fmt.Sprintf("(select (select %s (sref %s)) %s)", e.get(env.st, f), xv.T, a.abs), u.Elem()}, nil
+			}
+		}
 		return TV{fmt.Sprintf("(select (select %s (sref %s)) (+ (soff %s) %s))", e.get(env.st, f), xv.T, xv.T, iv.T), u.Elem()}, nil
 	case *types.Basic:
 		if isString(t) {
